@@ -5,6 +5,7 @@ facts about that embedding (Lean's `Float` operations are opaque, so these facts
 the harness' choice of dyadic data is meant to guarantee).
 -/
 import Mahotas.Proofs.C13OraclesNum
+import Mahotas.Proofs.C13Com
 namespace Mahotas.C13
 open Mahotas
 
@@ -136,5 +137,119 @@ theorem maxMinFloat_slot_of_monotone (emb : Int → Float) (lowest highest : Flo
       by_cases c : r < a
       · rw [if_pos c, if_pos ((hmono r hr a ha).mpr c)]
       · rw [if_neg c, if_neg (fun c' => c ((hmono r hr a ha).mp c'))]
+
+/-! ### center_of_mass with arbitrary operations (the driver: `floatOps`) -/
+
+theorem rowAdd_getD_gen {α : Type} (ops : NumOps α) (nd : Nat) (val : α) (pos : List Nat) (row : List α) (j : Nat)
+    (hj : j < nd) :
+    (rowAdd ops nd val pos row).getD j ops.zero =
+      ops.add (row.getD j ops.zero) (ops.mul val (ops.ofNat (pos.getD (nd - 1 - j) 0))) := by
+  unfold rowAdd
+  simp [List.getD_eq_getElem?_getD, List.getElem?_map, List.getElem?_range, hj]
+
+/-- the running row of a label, one coordinate at a time, for arbitrary operations -/
+theorem row_fold_gen {α : Type} (ops : NumOps α) (nd : Nat) (v : Nat → α) (pos : Nat → List Nat) (j : Nat)
+    (hj : j < nd) : ∀ (is : List Nat) (row : List α),
+    (is.foldl (fun r i => rowAdd ops nd (v i) (pos i) r) row).getD j ops.zero =
+      is.foldl (fun x i => ops.add x (ops.mul (v i) (ops.ofNat ((pos i).getD (nd - 1 - j) 0))))
+        (row.getD j ops.zero) := by
+  intro is
+  induction is with
+  | nil => intro row; rfl
+  | cons i is ih =>
+    intro row
+    simp only [List.foldl_cons]
+    rw [ih, rowAdd_getD_gen ops nd _ _ _ j hj]
+
+/-- transfer of an accumulation over a list of indices along an embedding of ℤ that is exact on every step -/
+theorem foldl_idx_hom {α : Type} (add : α → α → α) (emb : Int → α) (t : Nat → Int) (val : Nat → α) :
+    ∀ (is : List Nat) (s : Int),
+    (∀ pre i rest, is = pre ++ i :: rest →
+      add (emb (s + (pre.map t).sum)) (val i) = emb (s + (pre.map t).sum + t i)) →
+    is.foldl (fun acc i => add acc (val i)) (emb s) = emb (s + (is.map t).sum) := by
+  intro is
+  induction is with
+  | nil => intro s _; simp
+  | cons i is ih =>
+    intro s h
+    simp only [List.foldl_cons, List.map_cons, List.sum_cons]
+    have h1 := h [] i is rfl
+    simp only [List.map_nil, List.sum_nil, Int.add_zero] at h1
+    rw [h1, ih (s + t i), Int.add_assoc]
+    intro pre i' rest e
+    have := h (i :: pre) i' rest (by rw [e]; rfl)
+    simp only [List.map_cons, List.sum_cons] at this
+    rw [Int.add_assoc s (t i), this]
+
+/-- **center_of_mass with arbitrary operations, conditional on exact accumulation.** -/
+theorem comModelG_of_exact {α : Type} (ops : NumOps α) (emb : Int → α) (shape : List Nat) (ks labels : List Int)
+    (hnn : ∀ v ∈ labels, 0 ≤ v) (h0 : emb 0 = ops.zero)
+    (htot : ∀ (l : Nat) (pre : List Nat) (i : Nat) (rest : List Nat),
+      ((List.range ks.length).filter fun i => labels.getD i 0 == (l : Int)) = pre ++ i :: rest →
+      ops.add (emb (pre.map fun i => ks.getD i 0).sum) (emb (ks.getD i 0)) =
+        emb ((pre.map fun i => ks.getD i 0).sum + ks.getD i 0))
+    (hrow : ∀ (l j : Nat), j < shape.length → ∀ (pre : List Nat) (i : Nat) (rest : List Nat),
+      ((List.range ks.length).filter fun i => labels.getD i 0 == (l : Int)) = pre ++ i :: rest →
+      ops.add (emb (pre.map fun i => ks.getD i 0 * ((unravel shape i).getD j 0 : Nat)).sum)
+          (ops.mul (emb (ks.getD i 0)) (ops.ofNat ((unravel shape i).getD j 0))) =
+        emb ((pre.map fun i => ks.getD i 0 * ((unravel shape i).getD j 0 : Nat)).sum +
+          ks.getD i 0 * ((unravel shape i).getD j 0 : Nat))) :
+    comModelG ops shape (ks.map emb) labels =
+      (comSpec shape ks labels).map fun nd => ops.div (emb nd.1) (emb nd.2) := by
+  unfold comModelG comSpec
+  simp only [List.map_flatMap, List.map_map, List.length_map]
+  rw [comFold_fst, comFold_snd]
+  apply List.flatMap_congr
+  intro l hl
+  have hl' : l < (maxOf labels).toNat + 1 := List.mem_range.mp hl
+  rw [reverse_map_range]
+  apply List.map_congr_left
+  intro j hj
+  have hj' : j < shape.length := List.mem_range.mp hj
+  have hjr : shape.length - 1 - j < shape.length := by omega
+  have hsub : shape.length - 1 - (shape.length - 1 - j) = j := by omega
+  have hf : ((List.range ks.length).filter fun i => decide ((labels.getD i 0).toNat = l)) =
+      ((List.range ks.length).filter fun i => labels.getD i 0 == (l : Int)) := by
+    apply List.filter_congr
+    intro i _
+    have h0' := getD_nonneg labels hnn i
+    generalize labels.getD i 0 = x at h0'
+    by_cases e : x = (l : Int)
+    · have : x.toNat = l := by omega
+      simp [e]
+    · have : ¬ x.toNat = l := by omega
+      simp [e, this]
+  have hg : ∀ i, (ks.map emb).getD i ops.zero = emb (ks.getD i 0) := by
+    intro i
+    simp only [List.getD_eq_getElem?_getD, List.getElem?_map]
+    cases ks[i]? with
+    | none => simp [h0]
+    | some v => simp
+  have ht := modify_fold_slot (fun i (t : α) => ops.add t ((ks.map emb).getD i ops.zero))
+    (fun i => (labels.getD i 0).toNat) l (List.range ks.length)
+    (Array.replicate ((maxOf labels).toNat + 1) ops.zero)
+  have hr := modify_fold_slot (fun i =>
+      rowAdd ops shape.length ((ks.map emb).getD i ops.zero) (unravel shape i))
+    (fun i => (labels.getD i 0).toNat) l (List.range ks.length)
+    (Array.replicate ((maxOf labels).toNat + 1) (List.replicate shape.length ops.zero))
+  simp only [Array.getElem?_replicate, hl', if_true, Option.map_some] at ht hr
+  simp only [Array.getD_eq_getD_getElem?, Function.comp]
+  rw [ht, hr]
+  simp only [Option.getD_some]
+  rw [hf, row_fold_gen ops shape.length _ _ _ hjr, hsub]
+  have hzero : (List.replicate shape.length ops.zero).getD (shape.length - 1 - j) ops.zero = ops.zero := by
+    simp [List.getD_eq_getElem?_getD, List.getElem?_replicate, hjr]
+  rw [hzero]
+  simp only [hg]
+  rw [← h0, foldl_add_sum, foldl_add_sum,
+    foldl_idx_hom ops.add emb (fun i => ks.getD i 0) (fun i => emb (ks.getD i 0)) _ 0,
+    foldl_idx_hom ops.add emb (fun i => ks.getD i 0 * ((unravel shape i).getD j 0 : Nat))
+      (fun i => ops.mul (emb (ks.getD i 0)) (ops.ofNat ((unravel shape i).getD j 0))) _ 0]
+  · intro pre i rest e
+    simp only [Int.zero_add]
+    exact hrow l j hj' pre i rest e
+  · intro pre i rest e
+    simp only [Int.zero_add]
+    exact htot l pre i rest e
 
 end Mahotas.C13
